@@ -260,7 +260,7 @@ def generate(rng, index, cfg):
             extra = {}
             if rng.random() < 0.5:
                 for k in rng.sample(["path", "outputfilename", "cwd", "out", "filename", "output"], rng.randint(1, 3)):
-                    extra[k] = rng.choice(["a.ipynb", "evil.ipynb", "../outside/secret.ipynb", "sub/evil.ipynb", "/dev/shm/nbdime-verif-evil.ipynb", "c.ipynb"])
+                    extra[k] = rng.choice(["a.ipynb", "evil.ipynb", "../outside/secret.ipynb", "sub/evil.ipynb", "$SANDBOX/outside/abs-evil.ipynb", "c.ipynb"])
             if rng.random() < 0.3:
                 qk = rng.choice(["path", "outputfilename", "out"])
                 ex["path"] += "?%s=%s" % (qk, rng.choice(["evil.ipynb", "a.ipynb", "..%2Foutside%2Fsecret.ipynb"]))
@@ -558,7 +558,7 @@ class Runner:
     def build_request(self, ex):
         if "raw" in ex:
             return ex["raw"].encode("latin1")
-        body = (ex.get("body") or "").encode("utf8")
+        body = (ex.get("body") or "").replace("$SANDBOX", self.w.root).encode("utf8")   # absolute names stay inside the sandbox
         clen = len(body)
         net = ex.get("net") or {}
         framing = ex.get("framing", "length")
